@@ -1,12 +1,12 @@
 package rules
 
 import (
-	"go/ast"
-	"strconv"
 	"fmt"
+	"go/ast"
 	"go/token"
 	"go/types"
 	"sort"
+	"strconv"
 	"strings"
 
 	"golang.org/x/tools/go/ssa"
